@@ -2,8 +2,8 @@
 # usage: tools/seedtest_wt.sh <worktree> <patch> <Cxx> [...] -- like seedtest.sh but on a scratch worktree via AIOFTP_SRC (never touches /repo)
 wt="$1"; patch="$2"; shift; shift
 cd "$wt" || exit 2
-git checkout -q -- . ; git apply "$patch" || git apply --3way "$patch" || { echo "PATCH DOES NOT APPLY"; exit 3; }
-trap "git -C $wt checkout -q -- ." EXIT
+git reset -q --hard HEAD; git apply "$patch" || git apply --3way "$patch" || { echo "PATCH DOES NOT APPLY"; exit 3; }
+trap "git -C $wt reset -q --hard HEAD" EXIT
 cd /verif
 for id in "$@"; do
   out=$(AIOFTP_SRC=$wt/src /venv/bin/python checks/run.py "$id" --tier "${TIER:-quick}" ${BUDGET:+--budget $BUDGET} 2>&1)
